@@ -21,14 +21,14 @@ from collections import defaultdict, deque
 from . import readonly_fixture as rf
 from .tlc import MachineryError
 
-NEEDS_WS = {"ReOpen", "Close", "SaveAs", "Read", "Write", "Probe", "FetchEnter", "FetchExit"}
+NEEDS_WS = {"ReOpen", "Close", "SaveAs", "Read", "Write", "Probe", "FetchEnter", "FetchExit", "Repeat"}
 HELPERS_NEED_WS = {"input_file_ws", "monitored_copy"}
 WEIGHT = {"Open": 3.0, "ReOpen": 0.6, "Close": 1.5, "SaveAs": 0.4, "Read": 2.0, "Write": 4.0, "Probe": 2.0,
-          "Helper": 2.5, "FetchEnter": 1.2, "FetchExit": 2.0}
+          "Helper": 2.5, "FetchEnter": 1.2, "FetchExit": 2.0, "Repeat": 5.0}
 
 
 def skey(state):
-    return f"{state['mode']}/{state['fileVersion']}/{state['live']}/{state['ctx']}"
+    return f"{state['mode']}/{state['fileVersion']}/{state['live']}/{state['ctx']}/{state['rep']}"
 
 
 def lkey(label):
@@ -100,7 +100,8 @@ class Binder:
                 continue
             act = {"G": "Read", "W": "Write", "N": "Probe"}[c["cls"]]
             self.pool[(act, ep["op"])].append({"id": ep["id"], "kind": ep["kind"], "name": ep["name"], "cls": ep["cls"],
-                                               "family": ep["family"], "loc": ep["loc"], "tag": c["tag"]})
+                                               "family": ep["family"], "loc": ep["loc"], "tag": c["tag"],
+                                               "deferred": c.get("note") == "deferred"})
         rng = random.Random(seed)
         self.cursor = {}
         for key, lst in self.pool.items():
@@ -110,16 +111,22 @@ class Binder:
     def ops(self, act):
         return sorted({op for (a, op) in self.pool if a == act})
 
-    def bind(self, label):
-        """label -> step (a copy of the label with the concrete binding)."""
+    def bind(self, label, mode="r"):
+        """label -> step (a copy of the label with the concrete binding).  In a writable state only entry points that
+        write immediately are bound to Write (the deferred ones change the file at close)."""
         step = {"act": label["act"], "args": label["args"]}
         if label["act"] in ("Read", "Write", "Probe"):
             key = (label["act"], label["args"]["op"])
             lst = self.pool.get(key)
             if not lst:
                 raise MachineryError(f"operation class {key} of the specification has no entry point")
-            i = self.cursor[key]
-            self.cursor[key] = (i + 1) % len(lst)
+            for _ in range(len(lst)):
+                i = self.cursor[key]
+                self.cursor[key] = (i + 1) % len(lst)
+                if not (mode == "r+" and label["act"] == "Write" and lst[i]["deferred"]):
+                    break
+            else:
+                return None
             step["ep"] = lst[i]
         elif label["act"] == "Open":
             key = ("Open", "variant")
@@ -208,7 +215,14 @@ def cover_plans(graph, binder, max_len, want=None):
             labels.append(k)
             hw = _has_ws_after(graph.labels[k]["act"], hw)
             _, s2 = graph.expected(s2, k)
-        plans.append([binder.bind(graph.labels[k]) for k in labels])
+        plan, cur = [], graph.init
+        for k in labels:
+            step = binder.bind(graph.labels[k], graph.states[cur]["mode"])
+            if step is None:
+                break
+            plan.append(step)
+            _, cur = graph.expected(cur, k)
+        plans.append(plan)
     return plans, len(covered)
 
 
@@ -237,7 +251,10 @@ def random_plans(graph, binder, n, lengths, rng):
             if act == "Open":
                 cand = [lk for lk in cand for _ in range(4 if graph.labels[lk]["args"]["m"] == "r" else 1)]
             lk = rng.choice(cand)
-            steps.append(binder.bind(graph.labels[lk]))
+            step = binder.bind(graph.labels[lk], graph.states[s]["mode"])
+            if step is None:
+                break
+            steps.append(step)
             hw = _has_ws_after(act, hw)
             _, s = graph.expected(s, lk)
         if steps:
@@ -335,6 +352,7 @@ class Session:
         self.uijson = os.path.join(self.base, "c10.ui.json")
         self.ui = None
         self.pts = None
+        self.memo = None
 
     # ---- observation
     def mode(self):
@@ -390,6 +408,7 @@ class Session:
         from geoh5py.shared.utils import fetch_active_workspace
         act, args = step["act"], step["args"]
         extra = {}
+        memo, self.memo = self.memo, None
         try:
             if act == "Open":
                 if self.ws is None or step.get("variant", 0) == 0 or live != "sync" or self.mode() != "closed" \
@@ -429,10 +448,20 @@ class Session:
                 holder = rf.resolve(self.ws, ep["loc"])
                 if holder is None:
                     return "skipped:holder not found", extra
+                new = {"ep": ep}
                 try:
-                    return rf.invoke(self.ws, holder, ep, ep["tag"]), extra
+                    out = rf.invoke(self.ws, holder, ep, ep["tag"], new)
                 except rf.NotExercisable as exc:
                     return f"skipped:{exc}", extra
+                if "value" in new:
+                    self.memo = new
+                return out, extra
+            elif act == "Repeat":
+                if not memo or "value" not in memo:
+                    return "skipped:nothing to repeat", extra
+                self.memo = memo
+                extra["ep"] = memo["ep"]
+                return rf.repeat(memo), extra
             elif act == "Helper":
                 return self.helper(args["h"], extra), extra
             elif act == "FetchEnter":
@@ -505,7 +534,9 @@ class Session:
         self.ws = None
 
 
-def _fam(step):
+def _fam(step, extra=None):
+    if extra and "ep" in extra:
+        return extra["ep"]["family"]
     if "ep" in step:
         return step["ep"]["family"]
     if step["act"] == "Helper":
@@ -524,7 +555,7 @@ def replay_sequence(item):
     ideal = graphs["ideal"]
     ses = Session(item["fixture"], item["digest0"], graphs)
     stats = {"steps": 0, "acts": defaultdict(int), "labels": set(), "skipped": [], "truncated": 0,
-             "writes_refused": 0, "writes_refused_eps": set(), "reads_ok": 0, "helpers_ok": defaultdict(int),
+             "writes_refused": 0, "repeats_refused": 0, "writes_refused_eps": set(), "reads_ok": 0, "helpers_ok": defaultdict(int),
              "eps": set(), "probe_out": {}}
     viol = []
     state = ideal.init
@@ -560,7 +591,8 @@ def replay_sequence(item):
             if "ep" in step:
                 stats["eps"].add(step["ep"]["id"])
             verdict = out.split(":")[0]
-            where = f"step {i} {step['act']}({_fam(step)}) in state {state}"
+            fam = _fam(step, extra)
+            where = f"step {i} {step['act']}({fam}) in state {state}"
             if verdict == "skipped":
                 stats["skipped"].append((step.get("ep", {}).get("id"), out))
             # ---- look the observation up among the transitions of the specification
@@ -586,6 +618,8 @@ def replay_sequence(item):
                 if step["act"] == "Write" and st["mode"] == "r" and verdict == "refused":
                     stats["writes_refused"] += 1
                     stats["writes_refused_eps"].add(step["ep"]["id"])
+                if step["act"] == "Repeat" and verdict == "refused":
+                    stats["repeats_refused"] += 1
                 if step["act"] == "Read" and st["mode"] == "r" and verdict == "ok":
                     stats["reads_ok"] += 1
                 if step["act"] == "Helper" and verdict == "ok" and st["live"] == "sync":
@@ -609,21 +643,25 @@ def replay_sequence(item):
                         f"content {'unchanged' if same else 'changed' if same is False else '?'}) - the repack flag was "
                         f"raised in memory by an earlier refused or memory-only call; " + detail, i)
                 else:
-                    bad(f"file-changed-in-{'r' if st['mode'] == 'r' else 'closed'}:{_fam(step)}", detail, i)
+                    bad(f"file-changed-in-{'r' if st['mode'] == 'r' else 'closed'}:{fam}", detail, i)
             elif wopen and not any(w for _, w, _ in opts):
-                bad(f"source-opened-writable:{_fam(step)}", detail, i)
+                bad(f"source-opened-writable:{fam}", detail, i)
             elif all(ideal.states[d]["mode"] != mode_after for _, _, d in opts):
-                bad(f"mode-switched:{_fam(step)}", detail, i)
+                bad(f"mode-switched:{fam}", detail, i)
             elif step["act"] == "Write" and st["mode"] == "r" and verdict == "ok" and not changed:
-                bad(f"write-silently-ignored:{_fam(step)}", detail, i)
+                bad(f"write-silently-ignored:{fam}", detail, i)
+            elif step["act"] == "Repeat" and verdict == "ok" and not changed and "RepeatAccepted" in dev:
+                bad(f"repeat-silently-accepted:{fam}",
+                    f"{where}: the assignment that had just been refused returns normally when it is issued again with "
+                    f"the identical value - the file still holds the old value; " + detail, i)
             elif step["act"] == "Read" and verdict == "refused":
-                bad(f"getter-raises-in-r:{_fam(step)}", detail, i)
+                bad(f"getter-raises-in-r:{fam}", detail, i)
             elif step["act"] == "Write" and st["mode"] == "r+" and not changed:
                 raise MachineryError("binding not reproducible: " + detail)
             elif changed:
-                bad(f"file-changed:{_fam(step)}", detail, i)
+                bad(f"file-changed:{fam}", detail, i)
             else:
-                bad(f"unexpected:{step['act']}:{_fam(step)}", detail, i)
+                bad(f"unexpected:{step['act']}:{fam}", detail, i)
             break
         else:
             pass
